@@ -437,7 +437,7 @@ def stat_laws(stats, n, op, out, cfg):
             bad.append("%s = %d but %s = %d" % (label, stats[label], what, want))
 
     eq("PROPAGATOR_FILTER_NB", n["filter"], "constraint executions")
-    eq("PROPAGATOR_ENTAILMENT_NB", n["filter_ent"], "executions answering ENTAILMENT")
+    eq("PROPAGATOR_ENTAILMENT_NB", n["filter_ent"] - n["ent_then_fail"], "executions whose outcome is ENTAILMENT (an execution that empties a domain when written back is an inconsistency, not both)")
     eq("PROPAGATOR_INCONSISTENCY_NB", n["bc_inconsistent"], "executions after which the pass failed")
     if n["filter_inc"] > n["bc_inconsistent"]:
         bad.append("%d executions answered INCONSISTENCY but only %d passes failed" % (n["filter_inc"], n["bc_inconsistent"]))
